@@ -1502,3 +1502,62 @@ def paramcopy(repo, templates):
                 gen.node.lineno, gen.qualname)
     res.analysed = [TEMPLATES, hg.rel]
     return res
+
+
+def elemstorage(repo, facts=None):
+    """R-ELEMSTORAGE (C07): generator/runtime agreement on the storage type of array elements.  GenericArrayView builds each
+    element view over `BufferType::OffsetStorageType<kElementSize, 0>` (kElementSize in addressable units, the template
+    argument the generator fills from `element_size=`).  The element view type the generator names must be declared over
+    the same storage type, i.e. `_offset_storage_adapter(buffer_type, <the same element_size>, 0)`: with any other value
+    (the size in bits) the two types differ in their alignment parameter as soon as the root buffer is aligned
+    (MakeAligned...View<.., N> with N >= 2) and the header no longer compiles."""
+    res = RuleResult("R-ELEMSTORAGE")
+    hg = repo.mod("compiler/back_end/cpp/header_generator.py")
+    gen = None
+    for f in hg.funcs.values():
+        if "array_view_adapter" in ast.unparse(f.node) and "_offset_storage_adapter" in ast.unparse(f.node):
+            gen = f
+    if gen is None:
+        raise AnalysisError("header_generator: the array branch (array_view_adapter + _offset_storage_adapter) was not found")
+    tmpl_arg = None
+    adapters = []
+    for n in walk_no_nested_funcs(gen.node):
+        if isinstance(n, ast.Call) and (call_name(n) or "").endswith("format_template") and n.args and "array_view_adapter" in ast.unparse(n.args[0]):
+            for k in n.keywords:
+                if k.arg == "element_size":
+                    tmpl_arg = k.value
+            # the element view type is computed just before, in the same branch: collect adapters in the enclosing If
+    parents = {}
+    for n in ast.walk(gen.node):
+        for c in ast.iter_child_nodes(n):
+            parents[id(c)] = n
+    if tmpl_arg is None:
+        raise AnalysisError("array_view_adapter is not given `element_size=`")
+    node = tmpl_arg
+    branch = None
+    while id(node) in parents:
+        node = parents[id(node)]
+        if isinstance(node, ast.If):
+            branch = node
+            break
+    scope = branch.body if branch is not None else gen.node.body
+    for st in scope:
+        for n in ast.walk(st):
+            if isinstance(n, ast.Call) and (call_name(n) or "") == "_offset_storage_adapter" and len(n.args) == 3:
+                adapters.append(n)
+    res.instances = 1 + len(adapters)
+    if not adapters:
+        res.add(f"{hg.rel}|{gen.qualname}|no-adapter", "the element view type is not declared over an offset storage type", hg.rel,
+                gen.node.lineno, gen.qualname)
+    for a in adapters:
+        if ast.unparse(a.args[1]) != ast.unparse(tmpl_arg) or ast.unparse(a.args[2]) != "0":
+            res.add(f"{hg.rel}|{gen.qualname}|adapter-alignment", f"the element view is declared over OffsetStorageType<{ast.unparse(a.args[1])}, "
+                    f"{ast.unparse(a.args[2])}> but GenericArrayView creates elements over OffsetStorageType<{ast.unparse(tmpl_arg)}, 0> "
+                    "(its kElementSize): the types differ for aligned root buffers and the header does not compile", hg.rel, a.lineno, gen.qualname)
+    if facts is not None:
+        av = [m for m in facts.methods if m.cls.endswith("GenericArrayView") and "OffsetStorageType" in m.body]
+        if av and not any(re.search(r"OffsetStorageType\s*<\s*kElementSize\s*,\s*0\s*>", " ".join(m.body.split())) for m in av):
+            res.add("runtime/cpp/emboss_array_view.h|GenericArrayView|element-storage", "GenericArrayView no longer builds elements over "
+                    "OffsetStorageType<kElementSize, 0>", "runtime/cpp/emboss_array_view.h", 0, "GenericArrayView")
+    res.analysed = [hg.rel, "runtime/cpp/emboss_array_view.h"]
+    return res
